@@ -537,6 +537,8 @@ func ruleR28_3(c *Check) {
 	}
 	g := w.F("badger.Txn.Get")
 	r.DomAll(g, "ban check before the lookup", selCallName(w, "badger.DB.get"), 0, selCall(ib), 0)
+	// … and before every way Get can hand out an item, the transaction's own pending write included
+	r.ExitsNeed(g, "ban check", selCall(ib), 0, exitSuccess)
 }
 
 // lenOf: e is len(x) (possibly converted to another integer type) with pred(x).
@@ -770,4 +772,5 @@ func propC28(c *Check) {
 	ruleR28_4(c)
 	ruleR28_5(c)
 	ruleR29_5(c)
+	ruleR06_1(c) // the size estimate uses the threshold pinned on the entry: what checkSize accepted, sendToWriteCh accepts
 }
